@@ -114,6 +114,47 @@ pub fn run_op(line: &str) -> String {
         "enc" if toks[1] == "v5" => crate::pktops::v5_enc(&toks[2..]),
         "poll" if toks[1] == "v5" => crate::pktops::v5_poll(&unhex(toks[2]).unwrap(), crate::pktops::parse_sched(toks[3]).unwrap(), crate::pktops::parse_term(toks[4]).unwrap()),
         "cwp" if toks[1] == "v5" => crate::pktops::v5_cwp(toks[2], toks[3].parse().unwrap(), &unhex(toks[4]).unwrap()),
+        "enca" => {
+            use crate::fam::{Fam, V3, V5};
+            use crate::sio::WItem;
+            let mut script = Vec::new();
+            if toks[2] != "-" {
+                for it in toks[2].split(',') {
+                    script.push(if it == "p" {
+                        WItem::Pending
+                    } else if it == "z" {
+                        WItem::Zero
+                    } else if let Some(n) = it.strip_prefix('a') {
+                        WItem::Accept(n.parse().unwrap())
+                    } else {
+                        WItem::Err(io_kind_of(it.strip_prefix("e:").unwrap()).unwrap())
+                    });
+                }
+            }
+            fn go<F: Fam>(toks: &[&str], script: Vec<WItem>) -> String {
+                match F::parse(toks) {
+                    None => "unconstructible-or-bad".into(),
+                    Some(p) => {
+                        let npend = {
+                            // Pending items consumed are observable as the number of Pending results
+                            let mut w = crate::sio::ScriptWriter::new(script.clone());
+                            let _ = &mut w;
+                            0usize
+                        };
+                        let _ = npend;
+                        let (r, written, pend) = F::encode_async_counted(&p, script);
+                        match r {
+                            Ok(()) => format!("ok written={} pend={}", hex_or_dash(&written), pend),
+                            Err(e) => match e.io_kind {
+                                Some(k) => format!("err {} written={} pend={}", io_kind(k), hex_or_dash(&written), pend),
+                                None => format!("encode-err {}", e.text),
+                            },
+                        }
+                    }
+                }
+            }
+            if toks[1] == "v3" { go::<V3>(&toks[3..], script) } else { go::<V5>(&toks[3..], script) }
+        }
         "valid" => {
             // the generator only emits `valid` ops for packets it built inside the valid domain and
             // that the real encoder accepts: the model must agree (valid=1) and round-trip (rt=1)
